@@ -1,8 +1,10 @@
 import TabulaModel.Model.Nav
+import TabulaModel.Model.HtmlGrid
 /-
 Model of htmldoc/reader.go (as it is after the C19 fixes): getTextContent,
 getDirectTextContent, isBlockContainer / isBlockLevel, isInlineContent, emitInlineRun,
-shouldSkipElement, parseTable / parseTableRows / parseTableRow, traverseNodeFiltered
+shouldSkipElement, parseTable / parseTableRows / parseTableRow / dropEmptyRows (fix 72cc329: a
+row without cells is kept where a rowspan from above reaches it), traverseNodeFiltered
 with its list context and the child loop of a p/div block container (fix 75d57dc: the
 inline runs between the other children become paragraphs; `travM`),
 extractBodyWithMode, TextWithOptions and the element list of DocumentWithOptions;
@@ -133,14 +135,10 @@ def parseTableRow (isHeader : Bool) (kids : List Dom) : List Cell :=
       else none
     | _ => none
 
-/-- `parseTableRows` (rows of one thead/tbody/tfoot) -/
+/-- `parseTableRows` (rows of one thead/tbody/tfoot): every `tr`, with or without cells -/
 def parseTableRows (isHeader : Bool) (kids : List Dom) : List (List Cell) :=
   kids.filterMap fun
-    | .elem tag _ ks =>
-      if tag = T.tr then
-        let row := parseTableRow isHeader ks
-        if row = [] then none else some row
-      else none
+    | .elem tag _ ks => if tag = T.tr then some (parseTableRow isHeader ks) else none
     | _ => none
 
 /-- the child loop of `parseTable`: rows in document order, and whether a thead was seen -/
@@ -150,15 +148,24 @@ def tableSections : List Dom → List (List Cell) × Bool
     let (rows, hd) := tableSections rest
     if tag = T.thead then (parseTableRows true ks ++ rows, true)
     else if tag = T.tbody ∨ tag = T.tfoot then (parseTableRows false ks ++ rows, hd)
-    else if tag = T.tr then
-      let row := parseTableRow false ks
-      (if row = [] then rows else row :: rows, hd)
+    else if tag = T.tr then (parseTableRow false ks :: rows, hd)
     else (rows, hd)
   | _ :: rest => tableSections rest
 
+/-- `dropEmptyRows` (since fix 72cc329; Model/HtmlGrid.lean): a row without cells is dropped
+unless a cell of a row above reaches into it with its rowspan — then it is a row of the table's
+grid, all of whose positions are covered -/
+def dropEmptyRows (rows : List (List Cell)) : List (List Cell) :=
+  HtmlGrid.dropEmptyRows Cell.rowSpan rows
+
+/-- `parseTable` as it was before fix 72cc329: every row without cells was dropped, also where a
+rowspan from above covers all its positions (the rows below it then moved up) -/
+def dropEmptyRowsOld (rows : List (List Cell)) : List (List Cell) := rows.filter fun r => !r.isEmpty
+
 /-- `parseTable`: (rows, HasHeader) -/
 def parseTable (kids : List Dom) : List (List Cell) × Bool :=
-  let (rows, hd) := tableSections kids
+  let (rows0, hd) := tableSections kids
+  let rows := dropEmptyRows rows0
   let hasHeader := hd || (match rows with | [] => false | r :: _ => r.any (·.isHeader))
   (rows, hasHeader)
 
